@@ -54,6 +54,20 @@ def upToAnyPJRCardinal (bound : Rat) : Rat := bound
 
 def upToOnePJRCardinal (bound : Rat) : Rat := bound
 
+def isCohesiveApprovalFnLoop (large : Bool) (numBallots numProjects : Rat) : List (List Bool) → (Option Bool)
+  | [] => none
+  | x :: xs => (if (x).any (fun y => (!y)) then (some false) else (isCohesiveApprovalFnLoop large numBallots numProjects xs))
+
+def isCohesiveApprovalFn (large : Bool) (numBallots numProjects : Rat) (xs : List (List Bool)) : Bool :=
+  if (!large) then false else if ((decide (numBallots = (0 : Rat))) || (decide (numProjects = (0 : Rat)))) then false else (fun r => (Option.getD r true)) (isCohesiveApprovalFnLoop large numBallots numProjects xs)
+
+def isCohesiveCardinalFnLoop (large : Bool) (numBallots numProjects : Rat) : List (List (Rat × Rat)) → (Option Bool)
+  | [] => none
+  | x :: xs => (if (x).any (fun y => (decide (y.1 < y.2))) then (some false) else (isCohesiveCardinalFnLoop large numBallots numProjects xs))
+
+def isCohesiveCardinalFn (large : Bool) (numBallots numProjects : Rat) (xs : List (List (Rat × Rat))) : Bool :=
+  if (!large) then false else if ((decide (numBallots = (0 : Rat))) || (decide (numProjects = (0 : Rat)))) then false else (fun r => (Option.getD r true)) (isCohesiveCardinalFnLoop large numBallots numProjects xs)
+
 def cohApprovalTooSmall (large : Bool) : Bool := (!large)
 
 def cohApprovalEmpty (numBallots numProjects : Rat) : Bool := ((decide (numBallots = (0 : Rat))) || (decide (numProjects = (0 : Rat))))
